@@ -42,7 +42,7 @@ def _enc_scalar(x):
 def _dec_scalar(x, kind):
     if isinstance(x, str):
         if x == "nan":
-            return math.nan
+            return np.nan  # the singleton users pass (a pickle round trip replaces it by an equal but distinct float)
         if x == "inf":
             return math.inf
         if x == "-inf":
